@@ -108,6 +108,7 @@ impl Name {
             "u": self.unescaped(),
             "k": self.lower().unescaped(),
             "s": self.escaped(),
+            "sk": self.lower().escaped(),
             "l": self.0.iter().map(|l| lossy(l)).collect::<Vec<_>>(),
         })
     }
